@@ -185,6 +185,21 @@ CLAIMED['C15'] = dict(
          'missing/wrongly typed module that is never touched, or touched only at run time, is not required to be reported.',
     design='6/C15')
 
+CLAIMED['C10'] = dict(
+    level='exploration',
+    text='Seeded search over generated configuration FILES (Python DSL, 1..2 files merged) for generated module classes, '
+         'run through the real Server constructor and _processCfg with poll threads under the scheduler: configured '
+         'values of parameters with a write method must reach it exactly once, from the poll thread, before the first '
+         'poll of that module; start values, overridden limits/unit/visibility/readonly/group must show in cache and '
+         'description and limits must be used by later range checks (wire probes); with 0..3 injected errors (unknown '
+         'name, unknown parameter property, wrong type, missing mandatory property, required value missing, inverted '
+         'limits, bad module property) start-up must end with the error report naming every failing module and no '
+         'configured value may have reached any driver.',
+    note='Trusted: simulation kernel, fake driver, generated classes. The clauses "start value = converted configured '
+         'value" and "description shows the overrides" are pure configuration->result statements checked as riders of '
+         'the simulated start-up; the write-once-before-first-poll and rejected-whole clauses need the running node.',
+    design='6/C10')
+
 NOT_APPLICABLE = {
     'C01': 'pure function of (datatype, candidate, previous) - no schedule, clock, I/O or fault dimension for a simulator to decide',
     'C02': 'pure round-trip law over (datatype, value) - no schedule, clock, I/O or fault dimension',
